@@ -1,48 +1,4 @@
-(* GENERATED by py/translate/gen_ckpt.py from opacus/accountants/accountant.py, opacus/privacy_engine.py,
-   opacus/optimizers/optimizer.py -- do not edit *)
-From Coq Require Import ZArith List String Bool.
-From OV Require Import Base.Num Base.Py Model.SchedState Model.Ckpt Gen.Sched.
-Import ListNotations.
-Local Open Scope string_scope.
-Section Ckpt.
-Context {T : Type} {N : Num T} {P I : Type}.
-
-Definition acc_state_dict (h : heap T) (a : acc) : heap T * asd :=
- let d : asd := [] in
- let '(h, l) := halloc h (hget h (a_loc a)) in let d := sd_set d "history" (VLoc l) in
- let d := sd_set d "mechanism" (VMech (a_mech a)) in
- (h, d).
-
-Definition acc_load_state_dict (a : acc) (sd : option asd) : result acc :=
- if (sd_none_or_empty sd) then Err ValueError else
- if (sd_lacks sd "history") then Err ValueError else
- if (sd_lacks sd "mechanism") then Err ValueError else
- if (sd_mech_differs a sd) then Err ValueError else
- bind (sd_hist_loc sd) (fun l => Ok (mkacc l (a_mech a))).
-
-
-(* torch.save / torch.load: the accountant dictionary crosses the file as values *)
-Definition acc_save_value (hm : hist T * pystr) : asdv T :=
-  let '(h, d) := acc_state_dict [fst hm] (mkacc 0 (snd hm)) in sd_export h d.
-Definition acc_load_value (mech : pystr) (d : option (asdv T)) : result (hist T) :=
-  let '(h, sd) := match d with Some d => let '(h, sd) := sd_import [[]] d in (h, Some sd) | None => ([[]], None) end in
-  bind (acc_load_state_dict (mkacc 0 mech) sd) (fun a => Ok (hget h (a_loc a))).
-
-Definition save_ckpt (y : sys T P I) (has_opt has_ns has_cs : bool) : ckpt T P I :=
- let c : ckpt T P I := [] in
- let c := ck_set c "module_state_dict" (CModule (y_params y)) in
- let c := ck_set c "privacy_accountant_state_dict" (CAcc (acc_save_value (y_hist y, y_mech y))) in
- let c := if has_opt then ck_set c "optimizer_state_dict" (COpt (y_inner y)) else c in
- let c := if has_ns then ck_set c "noise_scheduler_state_dict" (CSched (noise_state_dict (y_ns y))) else c in
- let c := if has_cs then ck_set c "grad_clip_scheduler_state_dict" (CSched (clip_state_dict (y_cs y))) else c in
- c.
-
-Definition load_ckpt (y : sys T P I) (c : ckpt T P I) (has_opt has_ns has_cs : bool) : result (sys T P I) :=
- bind (ck_module c "module_state_dict") (fun p => let y := set_params y p in
- bind (ck_acc c "privacy_accountant_state_dict") (fun d => bind (acc_load_value (y_mech y) (Some d)) (fun h => let y := set_hist y h in
- let y := match ck_pop_opt c "optimizer_state_dict" with Some i => if has_opt then set_inner y i else y | None => y end in
- let y := match ck_pop_sched c "noise_scheduler_state_dict" with Some d => if has_ns then set_ns y (noise_load_state_dict (y_ns y) d) else y | None => y end in
- let y := match ck_pop_sched c "grad_clip_scheduler_state_dict" with Some d => if has_cs then set_cs y (clip_load_state_dict (y_cs y) d) else y | None => y end in
- Ok y))).
-
-End Ckpt.
+(* TRANSLATION FAILED (py/translate/gen_ckpt.py):
+load_checkpoint: unexpected body: pass
+*)
+Translation_failed.
